@@ -148,6 +148,15 @@ class Ctx:
 # -------------------------------------------------------------------------------------------
 # worker
 
+def _fresh_case():
+    """Before every case: primitives created by the code under test are shims again (a previous case may have switched to real
+    ones), and the module under test is re-executed so that its process-wide state is empty."""
+    from . import sched
+    sched.install_dispatch()
+    sched.set_mode("shim")
+    common.cold_module()
+
+
 def mix_seed(seed, shard, prop_id):
     h = hashlib.sha256(f"{seed}/{shard}/{prop_id}".encode()).digest()
     return int.from_bytes(h[:6], "big")
@@ -168,7 +177,7 @@ def run_hypothesis(mod, ctx, strategy, n_examples, seed, shrink_budget=90.0):
         ctx.last_case = case
         try:
             ctx.count()
-            common.cold_module()   # every case starts from empty process-wide state: a run is a pure function of its case
+            _fresh_case()   # every case starts from empty process-wide state: a run is a pure function of its case
             mod.run_case(case, ctx)
         except Violation as v:
             if state["fail_t"] is None:
@@ -207,7 +216,7 @@ def ddmin_ops(mod, prop_id, tier, case, vio, budget=25.0):
     def fails(cand):
         ctx = Ctx(prop_id, tier)
         try:
-            common.cold_module()
+            _fresh_case()
             mod.run_case(cand, ctx)
         except Violation as v:
             return v if json.dumps(v.sig, sort_keys=True, default=str) == want else None
@@ -287,7 +296,7 @@ def worker_main(prop_id, tier, seed, shard, nshards, out_path):
                 ctx.last_case = case
                 try:
                     ctx.count()
-                    common.cold_module()
+                    _fresh_case()
                     mod.run_case(case, ctx)
                 except Violation as v:
                     found = (v, case)
@@ -332,7 +341,7 @@ def replay_case(prop_id, case, tier="quick", exclude=None):
     ctx = Ctx(prop_id, tier)
     ctx.known = list(exclude or [])  # a plain replay reports everything
     try:
-        common.cold_module()
+        _fresh_case()
         mod.run_case(case, ctx)
     except Violation as v:
         return v
